@@ -127,7 +127,10 @@ func (w *World) run(opt RunOptions, res *Result) {
 	}
 	w.armSiteFaults()
 	w.phase = "setup"
-	if modeL1 && w.Cfg.StallPermille > 0 {
+	if modeL1 && w.Cfg.StallOnly != "" {
+		w.stalls = &dsync.StallConfig{Seed: w.Cfg.Seed, Only: w.Cfg.StallOnly, HitPct: uint32(w.Cfg.StallHitPct), MinShift: uint32(w.Cfg.StallMinShift), MaxShift: uint32(w.Cfg.StallMaxShift), Budget: 40}
+		dsync.SetStalls(w.stalls)
+	} else if modeL1 && w.Cfg.StallPermille > 0 {
 		// T6 (race-detector runs): hold goroutines of the library up at a per-run subset of its statements
 		w.stalls = &dsync.StallConfig{Seed: w.Cfg.Seed, Permille: uint32(w.Cfg.StallPermille), HitPct: uint32(w.Cfg.StallHitPct), MaxShift: uint32(w.Cfg.StallMaxShift), Budget: 300}
 		dsync.SetStalls(w.stalls)
